@@ -6,7 +6,8 @@ outside-growth flip on crossing (same side, same reward index); the initialisati
 convention of a newly used tick; inside = global - below - above with the three-way
 selection per bound and the statement's terms in each arm; the position credit formula
 (floor multiply, overflow -> 0, wrapping add, checkpoint := inside); the swap loop hands
-the crossing the updated growth for the input token and the stored one for the other.
+the crossing the updated growth for the input token and the stored one for the other, in
+the order step -> fee split -> running growth -> crossing within one iteration.
 Not decided: the quantitative pro-rata bound."""
 from analysis import cfg, atoms as A, preach, writes
 from analysis.ir import callee_path, AnchorMissing
